@@ -250,7 +250,7 @@ def gen_model(rng, n_targets, option_pool=None, p_no_outputs=0.1, subdir=False, 
     m = WModel()
     n_src = rng.pick([1, 2, 2, 3, 4])
     for i in range(n_src):
-        stem = "dätä ü" if rng.chance(0.08) else "s"
+        stem = "da\u0308tä ü" if rng.chance(0.08) else "s"  # one decomposed (NFD) and one precomposed (NFC) a-umlaut, a blank
         m.sources.append((("d/" if subdir and rng.chance(0.3) else "") + f"{stem}{i}.txt"))
     produced = []
     for i in range(n_targets):
@@ -269,7 +269,9 @@ def new_target(m, rng, produced=None, option_pool=None, p_no_outputs=0.1, subdir
     t = TModel(name)
     n_out = 0 if rng.chance(p_no_outputs) else rng.pick([1, 1, 1, 2, 2, 3])
     for j in range(n_out):
-        t.outputs.append((("d/" if subdir and rng.chance(0.3) else "") + f"f{m.counter}_{j}.out"))
+        # now and then a name with a decomposed accent (what a glob on macOS returns): byte-exact on Linux
+        stem_o = "re\u0301s" if (m.counter * 7 + j) % 23 == 5 else "f"
+        t.outputs.append((("d/" if subdir and rng.chance(0.3) else "") + f"{stem_o}{m.counter}_{j}.out"))
     pool = list(m.sources) + list(produced)
     n_in = rng.pick([0, 1, 1, 2, 2, 3])
     if chainy and produced:
